@@ -33,6 +33,7 @@ Reg(r) == [k |-> "reg", r |-> r]
 Imm(w) == [k |-> "imm", w |-> w]
 DRef == [k |-> "dref", b |-> 2]       \* address of the module's bss item gdat (memory block 2)
 DRef4 == [k |-> "dref", b |-> 4]      \* address of main's label-reference section lr_main: one 8-byte lref item per lref1/lref2 slot
+DRef5 == [k |-> "dref", b |-> 5]      \* address of the reference section rt: `ref gdat, 8` continued by an anonymous `ref g5`
 DRef3 == [k |-> "dref", b |-> 3]      \* address of the data section gd: data i32 11, -2, 2147483647 ; (anonymous) data i64 5
 Mem(ty, disp, base, idx, scale) == [k |-> "mem", ty |-> ty, disp |-> disp, base |-> base, idx |-> idx, scale |-> scale, al |-> ""]
 (* memory operand with an alias name: accesses with different non-empty alias names are promised not to overlap *)
@@ -197,14 +198,14 @@ Fmts == {"d", "f", "ld"}
 Pfx(fmt) == fmt
 
 KindsInt == {"ibin", "iun", "shift", "div", "br2", "br1", "loop", "ovf", "switch", "callg1", "callg2", "ext", "alloca", "jmpi", "idx",
-             "pld", "pst", "alloca2", "gcall", "dload", "lref1", "lref2", "addrst", "addrld", "addrcall", "bsblk"}
+             "pld", "pst", "alloca2", "gcall", "dload", "lref1", "lref2", "addrst", "addrld", "addrcall", "bsblk", "rload", "rcall"}
 KindsFp == {"fbin", "fcmp", "fbr", "i2f", "f2i", "fmovm", "f2f", "callg3", "addrfp", "callva"}
 (* "link": the constructs MIR_link rewrites (calls to inline, allocas, jumps and branch chains, memory operands) *)
 KindsLink == {"callg1", "callg2", "callg3", "ext", "alloca", "br2", "br1", "loop", "switch", "ibin", "idx", "jmpi", "ovf", "calla",
-              "callg6", "callg7", "gcall", "rblk", "blkv", "alloca2", "lref1", "lref2", "addrst", "addrcall", "bsblk", "callva"}
+              "callg6", "callg7", "gcall", "rblk", "blkv", "alloca2", "lref1", "lref2", "addrst", "addrcall", "bsblk", "callva", "rcall"}
 KindsOf == IF Vocab = "int" THEN KindsInt ELSE IF Vocab = "link" THEN KindsLink
          ELSE IF Vocab = "exec" THEN {"callg1", "callg2", "callg3", "calla", "ext", "icall", "icall5", "cb", "jmpi", "switch", "br2", "loop",
-                                      "ibin", "alloca", "fbin", "idx", "callg6", "callg7", "gcall", "rblk", "blkv", "callg12", "callg13", "callg14", "fmovm", "lref1", "lref2", "addrcall", "addrld", "bsblk", "callva"}
+                                      "ibin", "alloca", "fbin", "idx", "callg6", "callg7", "gcall", "rblk", "blkv", "callg12", "callg13", "callg14", "fmovm", "lref1", "lref2", "addrcall", "addrld", "bsblk", "callva", "rload", "rcall"}
          ELSE IF Vocab = "single" THEN (KindsInt \cup KindsFp \cup {"calla", "callg6", "callg7", "rblk", "blkv", "callg12", "callg13",
                                                                       "callg14", "icall", "icall5"}) \ {"callg3", "lref1", "lref2", "callva"}   \* functions with at most one result
          ELSE KindsInt \cup KindsFp \cup {"calla", "callg6", "callg7", "rblk", "blkv", "callg12", "callg13", "callg14"}
@@ -232,6 +233,8 @@ Holes(k) ==
     [] k = "lref1" -> <<"fwd">>
     [] k = "lref2" -> <<"fwd", "anyslot">>
     [] k = "idx" -> <<"isrcreg", "imemty", "ireg", "scale">>
+    [] k = "rload" -> <<"ireg", "imemty">>
+    [] k = "rcall" -> <<"ireg", "isrc">>
     [] k = "bsblk" -> <<"ireg", "isrc", "asize">>
     [] k = "callva" -> <<"ireg", "nva", "isrc", "isrc", "isrc", "dsrc">>
     [] k = "addrst" -> <<"ireg", "aty", "isrc", "ireg">>
@@ -320,6 +323,11 @@ Render(k, v) ==
                          InsIn("mov", Mem("i32", 4, PA, 0, 1), <<Imm(FromNat(77))>>),
                          InsIn("add", v[3], <<Mem("i64", 8, PA, 0, 1), Mem("u32", 4, PA, 0, 1)>>)>>
     [] k = "jmpi" -> <<[op |-> "laddr", d |-> Reg(RTMP2), l |-> v[1]], [op |-> "jmpi", s |-> <<Reg(RTMP2)>>]>>
+    \* reference data items: a pointer to gdat + 8 and a function address, both read from the module's reference section
+    [] k = "rload" -> <<InsIn("mov", Reg(RTMP), <<DRef5>>), InsIn("mov", Reg(RTMP), <<Mem("i64", 0, RTMP, 0, 1)>>),
+                        InsIn("mov", v[1], <<Mem(v[2], 0, RTMP, 0, 1)>>)>>
+    [] k = "rcall" -> <<InsIn("mov", Reg(RTMP), <<DRef5>>), InsIn("mov", Reg(RTMP2), <<Mem("i64", 8, RTMP, 0, 1)>>),
+                        [op |-> "call", callee |-> [k |-> "reg", r |-> RTMP2, f |-> 6], res |-> <<v[1]>>, args |-> <<v[2]>>]>>
     \* a block with automatic release of its alloca memory (also executed repeatedly inside loops)
     [] k = "bsblk" -> <<[op |-> "bstart", d |-> Reg(RBS), s |-> <<>>], [op |-> "alloca", d |-> Reg(PA), s |-> <<v[3]>>],
                         InsIn("mov", Mem("i64", 8, PA, 0, 1), <<v[2]>>), InsIn("add", v[1], <<Mem("i64", 8, PA, 0, 1), Imm(FromNat(3))>>),
@@ -469,9 +477,11 @@ InitMem(buf, lrs) ==
     [sz |-> 64, live |-> TRUE, cells |-> [i \in 1..64 |-> ByteC(0)]],
     [sz |-> 20, live |-> TRUE,
      cells |-> [i \in 1..20 |-> ByteC((<<11, 0, 0, 0>> \o <<254, 255, 255, 255>> \o <<255, 255, 255, 127>> \o <<5, 0, 0, 0, 0, 0, 0, 0>>)[i])]],
-    [sz |-> 8 * Len(lrs), live |-> TRUE, cells |-> LrCellsOf(lrs)]>>
+    [sz |-> 8 * Len(lrs), live |-> TRUE, cells |-> LrCellsOf(lrs)],
+    [sz |-> 16, live |-> TRUE, cells |-> [j \in 1..16 |-> IF j <= 8 THEN [k |-> "p", i |-> j, b |-> 2, o |-> 8]
+                                                            ELSE [k |-> "fnc", i |-> j - 8, f |-> 6]]]>>
 InitFrames == <<[f |-> 1, id |-> 0, va |-> <<>>, pc |-> 1, regs |-> [r \in 1..Len(MainRegTy) |-> IF r = 1 THEN PtrV(1, 0) ELSE UndefV],
-                 base |-> 4, ovf |-> NoOvf]>>
+                 base |-> 5, ovf |-> NoOvf]>>
 MainFunc ==
   [name |-> "main", params |-> <<"p">>, res |-> <<"i64">>, regty |-> MainRegTy, lrefs |-> LrSeq,
    insns |-> Prologue \o [i \in 1..Len(body) |-> Resolve(body[i])] \o Epilogue]
